@@ -415,3 +415,130 @@ func (w *World) closureUnderUnitCase(clo *ssa.Function, unit string) bool {
 	})
 	return ok && seen
 }
+
+// ruleComponentWidths (W-BUILD, C07): every component of a bar style is built with the display
+// width of exactly the text whose bytes it holds (`component{StringWidth(x), []byte(x)}`): the
+// fill loops account cells by that width (W-CELLS), so a width taken from another string, a byte
+// length or a constant makes the body narrower or wider than its allotted width.
+func ruleComponentWidths(w *World, r *Report, pfx string) {
+	rule := pfx + ".W-BUILD"
+	n := 0
+	for _, fn := range w.ModFns {
+		if fn.Pkg != w.Mpb {
+			continue
+		}
+		for _, b := range fn.Blocks {
+			for _, in := range b.Instrs {
+				st, ok := in.(*ssa.Store)
+				if !ok {
+					continue
+				}
+				f, ok := fieldOf(st.Addr)
+				if !ok || f.Owner != "mpb.component" || f.Name != "width" {
+					continue
+				}
+				// a zero-value reset (`tip = component{}`) stores no width; copies of whole components are not field stores
+				n++
+				bad := ""
+				c, isCall := stripConv(st.Val).(*ssa.Call)
+				if !isCall || c.Call.StaticCallee() == nil || c.Call.StaticCallee().Name() != "StringWidth" || len(c.Call.Args) != 1 {
+					bad = "the component's width is not the display width (runewidth.StringWidth) of its text"
+				} else {
+					// the sibling store of the bytes on the same component
+					okBytes := false
+					base := st.Addr.(*ssa.FieldAddr).X
+					if base.Referrers() != nil {
+						for _, ref := range *base.Referrers() {
+							fa, ok := ref.(*ssa.FieldAddr)
+							if !ok || fa.Referrers() == nil {
+								continue
+							}
+							if f2, ok := fieldOf(fa); !ok || f2.Name != "bytes" {
+								continue
+							}
+							for _, r2 := range *fa.Referrers() {
+								s2, ok := r2.(*ssa.Store)
+								if !ok {
+									continue
+								}
+								cv, ok := s2.Val.(*ssa.Convert)
+								if ok && (cv.X == c.Call.Args[0] || w.sameSource(cv.X, c.Call.Args[0]) || sameValueExpr(cv.X, c.Call.Args[0], 0)) {
+									okBytes = true
+								}
+							}
+						}
+					}
+					if !okBytes {
+						bad = "the component's width is measured on a different string than the one whose bytes it holds"
+					}
+				}
+				r.Check(bad == "", rule, fmt.Sprintf("component built in %s #%d", fnShort(fn), n), w.instrPos(in), "width = StringWidth(x), bytes = []byte(x)", bad)
+			}
+		}
+	}
+	r.Floor(rule, 2, "style components and tip frames")
+}
+
+// ruleTermSize (T-SIZE, C04/C07): the terminal size query returns (columns, rows) in that order.
+func ruleTermSize(w *World, r *Report, pfx string) {
+	rule := pfx + ".T-SIZE"
+	fn := w.Func("cwriter.GetSize")
+	if fn == nil {
+		r.HoldsTrivial(rule, "cwriter.GetSize", "", "not in this build configuration")
+		return
+	}
+	bad := ""
+	saw := false
+	w.enumPaths(fn, pathOpts{}, func(p *Path) {
+		if p.Exit != "return" || len(p.Ret) != 3 {
+			return
+		}
+		fieldName := func(v Val) string {
+			x := p.stripR(v)
+			if f, ok := loadedField(x.V); ok {
+				return f.Name
+			}
+			return ""
+		}
+		a, b := fieldName(p.Ret[0]), fieldName(p.Ret[1])
+		if a == "" && b == "" {
+			return // the error path
+		}
+		saw = true
+		if a != "Col" || b != "Row" {
+			bad = fmt.Sprintf("GetSize returns (%s, %s) as (width, height): columns and rows are confused", orStr(a, "?"), orStr(b, "?"))
+		}
+	})
+	r.Check(bad == "" && saw, rule, "cwriter.GetSize", w.pos(fn.Pos()), "(width, height) = (ws.Col, ws.Row)", orStr(bad, "no successful return found"))
+}
+
+// sameValueExpr: a and b are structurally the same side-effect-free read (same variable, or loads
+// through identical field / constant-index address chains of the same base).
+func sameValueExpr(a, b ssa.Value, depth int) bool {
+	if a == b {
+		return true
+	}
+	if depth > 8 {
+		return false
+	}
+	switch x := a.(type) {
+	case *ssa.UnOp:
+		y, ok := b.(*ssa.UnOp)
+		return ok && x.Op == y.Op && x.Op == token.MUL && sameValueExpr(x.X, y.X, depth+1)
+	case *ssa.FieldAddr:
+		y, ok := b.(*ssa.FieldAddr)
+		return ok && x.Field == y.Field && sameValueExpr(x.X, y.X, depth+1)
+	case *ssa.Field:
+		y, ok := b.(*ssa.Field)
+		return ok && x.Field == y.Field && sameValueExpr(x.X, y.X, depth+1)
+	case *ssa.IndexAddr:
+		y, ok := b.(*ssa.IndexAddr)
+		if !ok || !sameValueExpr(x.X, y.X, depth+1) {
+			return false
+		}
+		kx, ok1 := constInt(x.Index)
+		ky, ok2 := constInt(y.Index)
+		return (ok1 && ok2 && kx == ky) || x.Index == y.Index
+	}
+	return false
+}
